@@ -191,6 +191,16 @@ func renameBindings(c bq.Clause, f func(string) string) bq.Clause {
 	c.S.Binding, c.S.As, c.S.Type, c.S.ID = r(c.S.Binding), r(c.S.As), r(c.S.Type), r(c.S.ID)
 	c.P.Binding, c.P.AnchorB, c.P.As, c.P.IDAlias, c.P.At = r(c.P.Binding), r(c.P.AnchorB), r(c.P.As), r(c.P.IDAlias), r(c.P.At)
 	c.O.Binding, c.O.AnchorB, c.O.As, c.O.Type, c.O.ID, c.O.At = r(c.O.Binding), r(c.O.AnchorB), r(c.O.As), r(c.O.Type), r(c.O.ID), r(c.O.At)
+	if c.P.Bound != nil {
+		b := *c.P.Bound
+		b.LoB, b.HiB = r(b.LoB), r(b.HiB)
+		c.P.Bound = &b
+	}
+	if c.O.Bound != nil {
+		b := *c.O.Bound
+		b.LoB, b.HiB = r(b.LoB), r(b.HiB)
+		c.O.Bound = &b
+	}
 	return c
 }
 
